@@ -143,6 +143,10 @@ func authsimRun(r *Run) {
 	w.Cfg.HTTP.UseAuth = a.useAuth
 	w.Cfg.HTTP.AuthToken = a.admin
 	w.Cfg.HTTP.ProfilingEndpointsEnabled = t.Chance(1, 2, "profiling")
+	// metrics can only be switched on once per process (package-level registry): the runner gives every other
+	// worker process of the C09 check the option metrics=1
+	w.Cfg.Metrics.Enabled = r.Opt["metrics"] == "1"
+	r.Cfg["metrics"] = w.Cfg.Metrics.Enabled
 	r.Cfg["use_auth"] = a.useAuth
 	r.Cfg["profiling"] = w.Cfg.HTTP.ProfilingEndpointsEnabled
 	w.WrapRepo = func(repo *repository.Repositories) {
@@ -476,7 +480,7 @@ func (a *authSim) sweep() {
 		return routes[i].Method < routes[j].Method
 	})
 	r.Logf("sweep %d routes, auth=%v", len(routes), a.useAuth)
-	seenPprof := false
+	seenPprof, seenMetrics := false, false
 	for _, rt := range routes {
 		api := strings.HasPrefix(rt.Path, "/api/v1/") || rt.Path == "/api/v1"
 		if !api {
@@ -490,6 +494,12 @@ func (a *authSim) sweep() {
 			}
 			if !ok {
 				r.Fail("C09", "route-outside-prefix", rt.Method+" "+rt.Path, "route %s %s exists outside the authenticated prefix", rt.Method, rt.Path)
+			}
+			if rt.Path == "/metrics" {
+				seenMetrics = true
+				if !w.Cfg.Metrics.Enabled {
+					r.Fail("C09", "route-outside-prefix", "metrics-while-disabled", "the metrics route is registered although metrics are disabled")
+				}
 			}
 			continue
 		}
@@ -537,7 +547,13 @@ func (a *authSim) sweep() {
 		}
 	}
 	if w.Cfg.HTTP.ProfilingEndpointsEnabled && !seenPprof {
-		r.Probe("profiling-enabled-but-no-route")
+		r.Fail("C09", "route-missing", "pprof-enabled", "profiling is enabled but no profiling route is registered")
+	}
+	if w.Cfg.Metrics.Enabled && !seenMetrics {
+		r.Fail("C09", "route-missing", "metrics-enabled", "metrics are enabled but the metrics route is not registered")
+	}
+	if seenMetrics {
+		r.Probe("metrics-route-present")
 	}
 }
 
